@@ -1,7 +1,7 @@
 (* C09 -- facts about the REGENERATED context list (coq/Gen/SigContexts.v is
    rewritten from the Go sources on every run), the hypotheses-needed
    witnesses, and non-vacuity examples. *)
-From Verif Require Import Lib.Base Auth.Model Auth.Proofs Auth.Corr Gen.SigContexts.
+From Verif Require Import Lib.Base Auth.Model Auth.Proofs Auth.Corr Gen.SigContexts Gen.SigOptions.
 
 (* ed25519.ContextMaxSize (curve25519-voi), the bound of NewContext signer.go:147 *)
 Definition ed25519_context_max_size : N := 255.
@@ -117,10 +117,10 @@ Proof. vm_compute. left. reflexivity. Qed.
 Definition exP : kparams :=
   {| p_max_tx_size := 32768; p_min_transact := 0; p_min_transfer := 10; p_gas_byte := 1;
      p_gas_transfer := 1000; p_gas_burn := 1000; p_min_gas_price := 0; p_reserved := [] |}.
-Definition exC := kcfg exP chain_separator tx_context [1].
+Definition exC := kcfg exP chain_separator tx_context [1] allow_small_order_A allow_small_order_R.
 
 Definition ex_tx (signer nonce : N) (valid : bool) : kraw :=
-  {| k_len := 200; k_env := true; k_pk := signer; k_black := false; k_sigvalid := valid;
+  {| k_len := 200; k_env := true; k_pk := signer; k_black := false; k_small_a := false; k_small_r := false; k_sigvalid := valid;
      k_tx := Some {| kt_nonce := nonce; kt_fee := Some (10, 10000); kt_method := 3;
                      kt_to := 9; kt_amount := 100; kt_body_ok := true |} |}.
 
@@ -202,7 +202,8 @@ Definition malC : cfg (list (N * N)) (kraw * N) :=
   {| raw_len := fun r => k_len (fst r) + snd r;
      dec_env := fun r => k_dec_env (fst r);
      dec_tx := dec_tx exC; hashf := hashf exC; sig_ok := sig_ok exC;
-     blacklisted := blacklisted exC; addr_of := addr_of exC; reserved := reserved exC;
+     blacklisted := blacklisted exC; allow_small_A := allow_small_A exC; allow_small_R := allow_small_R exC;
+     small_order_A := small_order_A exC; small_order_R := small_order_R exC; addr_of := addr_of exC; reserved := reserved exC;
      is_system := is_system exC; has_app := has_app exC; is_critical := is_critical exC;
      max_tx_size := max_tx_size exC; SEP := SEP exC; txc := txc exC; chain := chain exC;
      fee_ok := fee_ok exC; fee_move_ok := fee_move_ok exC; pay_fee := pay_fee exC;
@@ -221,3 +222,27 @@ Proof.
   split; [discriminate|]. split; [reflexivity|]. split; [reflexivity|].
   vm_compute. repeat split; reflexivity.
 Qed.
+
+(* ------------------------------------------------------------------ *)
+(* The Ed25519 verification options the property is stated for         *)
+(* ------------------------------------------------------------------ *)
+(* regenerated from the ed25519.VerifyOptions literal of signature.go on every
+   run: small-order A (and R) rejected; no other option field set; no
+   verification call bypasses the literal *)
+Lemma verify_options_expected :
+  allow_small_order_A = false /\ allow_small_order_R = false /\
+  allow_noncanonical_A = true /\ allow_noncanonical_R = true /\
+  other_option_fields = [] /\ verification_bypassing_options = [].
+Proof. repeat split; reflexivity. Qed.
+
+(* with these options: a universal-forgery envelope (small-order key, equation
+   holds) is rejected by the model, and would be authenticated if the option were flipped *)
+Definition ex_forged : kraw :=
+  {| k_len := 200; k_env := true; k_pk := 1; k_black := false; k_small_a := true; k_small_r := false;
+     k_sigvalid := true;
+     k_tx := Some {| kt_nonce := 0; kt_fee := Some (10, 10000); kt_method := 3;
+                     kt_to := 9; kt_amount := 100; kt_body_ok := true |} |}.
+Example ex_small_order_rejected :
+  obs (snd (deliver exC ex_s0 ex_forged)) = 3 /\
+  obs (snd (deliver (kcfg exP chain_separator tx_context [1] true false) ex_s0 ex_forged)) = 0.
+Proof. vm_compute. split; reflexivity. Qed.
